@@ -594,6 +594,13 @@ def build_specs(case, env):
                 if sp["fail"]:
                     raise ValueError("in-memory datasource %s failed" % sp["name"])
                 fl = sp.get("rp_flags", {})
+                if sp.get("mem_ds"):
+                    # a provider that names its datasource (ds=) AND carries exemptions of its own: the spec's
+                    # declaration is what counts, the provider's own list is the caller's and must stay the caller's
+                    return DatasourceProvider(list(sp["lines"]), relative_path=sp["relative_path"], save_as=sp["save_as"],
+                                              ds=impl_body[sp["name"]], ctx=broker.get(Ctx), cleaner=broker.get("cleaner"),
+                                              no_obfuscate=(list(sp.get("prov_no_obfuscate") or []) if PROV_EXEMPTIONS["on"] else []),
+                                              no_redact=fl.get("no_redact", False))
                 return DatasourceProvider(list(sp["lines"]), relative_path=sp["relative_path"], save_as=sp["save_as"],
                                           ctx=broker.get(Ctx), cleaner=broker.get("cleaner"),
                                           no_obfuscate=fl.get("no_obfuscate"), no_redact=fl.get("no_redact", False))
@@ -1505,11 +1512,16 @@ def gen_e2e(st, tier, flavour):
         sp = {"name": "s%02d" % i, "factory": rp.choice(["simple_file", "simple_file", "simple_command", "memory", "glob_file"]),
               "lines": s3["lines"], "no_obfuscate": s3["no_obfuscate"], "no_redact": s3["no_redact"],
               "filterable": False, "filters": []}
+        if sp["factory"] == "memory" and rk.random() < 0.5:
+            sp["mem_ds"] = True
+            sp["prov_no_obfuscate"] = [x for x in w3.ALL_OBF if rk.random() < 0.3]
         if sp["factory"] != "memory" and rk.random() < 0.4:
             sp["filterable"] = True
             if rk.random() < 0.8:
                 sp["filters"] = rk.sample(E2E_FILTER_WORDS, rk.randint(1, 3))
         case["specs"].append(sp)
+    if flavour == "C10" and rk.random() < 0.4:
+        case["repeat"] = True          # the same collection once more in the same process (fresh cleaner, fresh archive)
     if rk.random() < 0.45:
         # collect() runs its specs on a thread pool only while obfuscation is off; ONE pool then serves run_all and the
         # persister's marshalling, and ONE Cleaner serves every pool thread
@@ -1544,6 +1556,26 @@ def e2e_traced_files():
     return E2E_TRACED
 
 
+PROV_EXEMPTIONS = {"on": True}
+
+
+def e2e_stored(out, case, rps):
+    """spec name -> list of stored data files (as text), read through the archive's own metadata."""
+    res = {}
+    meta = os.path.join(out, "meta_data")
+    for sp in case["specs"]:
+        mp = os.path.join(meta, dr.get_name(rps[sp["name"]]) + ".json")
+        doc = json.load(open(mp)) if os.path.exists(mp) else None
+        r = (doc or {}).get("results")
+        items = r if isinstance(r, list) else ([r] if r else [])
+        files = []
+        for it in items:
+            dp = os.path.join(out, "data", it["object"]["relative_path"])
+            files.append(open(dp, encoding="utf-8").read() if os.path.isfile(dp) else None)
+        res[sp["name"]] = files
+    return res
+
+
 def run_e2e(case, flavour):
     from worlds import w3_cleaner as w3
     stats = {"faults_fired": {}, "probes": {"e2e_collections": 1}}
@@ -1571,6 +1603,8 @@ def run_e2e(case, flavour):
         else:
             s2["lines"] = raw
             s2["relative_path"] = "memory/%s" % sp["name"]
+            s2["mem_ds"] = sp.get("mem_ds", False)
+            s2["prov_no_obfuscate"] = sp.get("prov_no_obfuscate")
         s2["rp_flags"] = {"filterable": sp["filterable"], "no_obfuscate": list(sp["no_obfuscate"]), "no_redact": sp["no_redact"]}
         env_case["specs"].append(s2)
     env = Env(env_case)
@@ -1584,6 +1618,39 @@ def run_e2e(case, flavour):
                         filters.add_filter(rps[sp["name"]], list(sp["filters"]))
                 cfg = w3.Cfg(**dict(case["cfg"]))
                 from insights.cleaner import Cleaner
+
+                def extra_collection(sub, prov_on):
+                    """The same collection in the same process: fresh cleaner, fresh archive, fresh broker and context.
+                    Provider-level exemption lists (ignored by contract when the provider names its datasource) are
+                    left out when ``prov_on`` is False."""
+                    out_x = os.path.join(env.base, sub, "insights-archive")
+                    os.makedirs(out_x)
+                    fs.touch(os.path.join(out_x, "insights_archive.txt"))
+                    bx = dr.Broker()
+                    cx = Ctx(env.root, env_case["table"], env.clock, env.tmp)
+                    bx[Ctx] = cx
+                    bx["cleaner"] = Cleaner(cfg, w3.rm_conf_of(case), fqdn=case["fqdn"])
+                    bx["redact_config"] = w3.rm_conf_of(case)
+                    bx["client_config"] = cfg
+                    bx.add_observer(Hydration(out_x, cx).make_persister(set(rps.values())))
+                    gx = {}
+                    for r_ in rps.values():
+                        gx.update(dr.get_dependency_graph(r_))
+                    PROV_EXEMPTIONS["on"] = prov_on
+                    try:
+                        dr.run_all(gx, bx, None)
+                        return e2e_stored(out_x, case, rps)
+                    except HarnessError:
+                        raise
+                    except Exception as e:
+                        return {"<raised>": [repr(e)]}
+                    finally:
+                        PROV_EXEMPTIONS["on"] = True
+
+                baseline = None
+                if case.get("repeat"):
+                    baseline = extra_collection("out0", False)
+                    stats["probes"]["e2e_collections_repeated_in_process"] = 1
                 cleaner = Cleaner(cfg, w3.rm_conf_of(case), fqdn=case["fqdn"])
                 fs.touch(os.path.join(env.out, "insights_archive.txt"))
                 broker = dr.Broker()
@@ -1710,6 +1777,18 @@ def run_e2e(case, flavour):
                                 for m in macs:
                                     if m not in issued["mac"] and m not in abut and w3.occurs_token(m, o, "0123456789abcdefABCDEF_" + w3.WORD):
                                         viols.append(V("C08.e2e", "mac-written:%s" % sp["factory"], "MAC %r written to the archive in %r" % (m, o)))
+                if case.get("repeat") and escaped is None and baseline is not None:
+                    # what the collection under test stored, and the same collection once more afterwards
+                    for tag, other in (("the second (the collection under test)", e2e_stored(env.out, case, rps)),
+                                       ("the third", extra_collection("out3", False))):
+                        if other != baseline:
+                            bad = sorted(k for k in set(baseline) | set(other) if baseline.get(k) != other.get(k))
+                            k0 = bad[0]
+                            viols.append(V("C10.e2e", "repeated-collection-differs",
+                                           "the same specs, content and configuration collected several times in one process (fresh "
+                                           "cleaner, fresh archive each time): %s differs between the first collection and %s: %r vs %r" % (
+                                               bad, tag, (baseline.get(k0) or [None])[:1], (other.get(k0) or [None])[:1])))
+                            break
     finally:
         env.close()
     viols = [v for v in viols if v["oracle"].startswith(flavour)]
